@@ -296,6 +296,44 @@ def run_public(spec, acc):
                             frames2 = encode_frames(enc2, fmt, m2)
                 except Exception:  # noqa: BLE001
                     frames2, expect2 = [], None
+                # a decoder whose id filter drops a SIBLING definition of this PGN: that sibling's message travels first on the same
+                # stream (with the same leading bytes where the two differ late), is dropped, and this message - frame by frame -
+                # comes through untouched
+                sibs_ = [x for x in dbx.by_pgn.get(d.pgn, []) if x is not d and x.encodable and x.fixed_layout]
+                if sibs_ and c % 2 == 0 and len(frames) > 1:
+                    sib = sibs_[c % len(sibs_)]
+                    try:
+                        nb_s = sib.length if sib.length is not None else (sib.total_bits() + 7) // 8
+                        ps = dbx.pack(sib, gen.base_raws(sib, rng, dbx))
+                        if nb_s == nb and c % 4 == 0:
+                            # the sibling's payload differs from this message's only in the sibling's match fields (where those sit
+                            # late in the payload, the two messages begin with the very same frame)
+                            ps2 = payload
+                            for f_ in sib.match_fields:
+                                ps2 = (ps2 & ~(f_.mask << f_.off)) | (f_.match << f_.off)
+                            if dbx.select(sib.pgn, ps2) is sib:
+                                ps = ps2
+                                acc.count("filtered_siblings_sharing_the_leading_bytes")
+                        ms = src_dec.decode_basic_string(wire.plain_line(3, sib.pgn, 7, 255, ps.to_bytes(nb_s, "little")), already_combined=True) if dbx.select(sib.pgn, ps) is sib else None
+                    except Exception:  # noqa: BLE001
+                        ms = None
+                    if ms is not None and ms.id == sib.id:
+                        ms.source, ms.destination, ms.priority = 7, 255, 3
+                        decf = NMEA2000Decoder(exclude_pgns=[sib.id])
+                        encf = NMEA2000Encoder()
+                        try:
+                            for ident_, data_, raw_ in encode_frames(encf, fmt, ms):
+                                feed(decf, fmt, ident_, data_, raw_)
+                            rf = None
+                            for ident_, data_, raw_ in encode_frames(encf, fmt, m):
+                                rf = feed(decf, fmt, ident_, data_, raw_)
+                        except Exception as e_:  # noqa: BLE001
+                            rf = e_
+                        acc.count("messages_reassembled_after_a_sibling_dropped_by_an_id_filter")
+                        if rf is None or isinstance(rf, Exception) or project.msg_proj(rf, with_hash=False) != project.msg_proj(expect, with_hash=False):
+                            acc.violation("no-message-at-last-frame" if rf is None else "reassembled-message-differs",
+                                          f"{ctx}: on a decoder whose id filter had just dropped a {sib.id} message of the same stream: {'nothing returned' if rf is None else repr(rf)[:120]}",
+                                          {"ctx": ctx, "filtered_sibling": sib.id, "frames": [x.hex() for _, x, _ in frames]})
                 half_done = c % 4 == 1 and len(frames) > 1
                 if half_done:
                     # right before this message the same stream carried a complete message that the codec refuses (a field out of
